@@ -119,6 +119,40 @@ def run_part(run, fails, stats):
                                           dict(w, user_entries=d and d["user_entries"])))
     finally:
         srv.stop()
+    # a compound WRITTEN like a word the user confirmed earlier under another reading (大事: だいじ the noun, おおごと = 大 + 事):
+    # what was learned about a written form says nothing about the compound's reading — the compound must still be learned
+    wd3 = S.workdir("c20hom")
+    dic3 = S.make_dictionary(bindir, wd3, std=S.STD + [("だいじ", "大事", "一般名詞"), ("ごと", "事", "一般名詞")],
+                             anc=S.ANC + [("おお", "大", "接頭辞")])
+    ud3 = os.path.join(wd3, "user")
+    srv = S.Server(bindir, dic3, ud3, workers=4, save_secs=1)
+    try:
+        if dic3 is not None and srv.wait_listening():
+            r1 = srv.conv("だいじ")
+            t1 = S.texts(r1) or []
+            if "大事" in t1:
+                srv.rpc("UpdateFrequency", {"session_id": r1[1]["session_id"], "candidate_id": str(t1.index("大事"))})
+                stats["plain_confirmed"] += 1
+            r2 = srv.conv("おおごと")
+            t2 = S.texts(r2) or []
+            if "大事" in t2:
+                srv.rpc("UpdateFrequency", {"session_id": r2[1]["session_id"], "candidate_id": str(t2.index("大事"))})
+                stats["compounds_confirmed"] += 1
+                line = "おおごと\t大事\t/一般名詞/"
+                got = S.wait_until(lambda: (lambda d_: d_ if d_ is not None and line in d_["user_entries"] else None)(srv.dump()), 4.0)
+                w = {"earlier_confirmed": ["だいじ", "大事"], "input": "おおごと", "confirmed": "大事", "expected_compound": ["大事", "おおごと"]}
+                if got is None:
+                    d_ = srv.dump()
+                    fails.append(("compound-not-in-user-dictionary", {"kind": "compound-not-in-user-dictionary", "phase": "same-written-form"},
+                                  dict(w, user_entries=d_ and d_["user_entries"])))
+                else:
+                    p3 = os.path.join(ud3, "user.dic")
+                    saved = S.wait_until(lambda: os.path.exists(p3) and line in open(p3, encoding="utf-8", errors="replace").read().split("\n"), 6.0)
+                    if saved is None:
+                        fails.append(("compound-not-saved", {"kind": "compound-not-saved", "phase": "same-written-form"}, w))
+    finally:
+        srv.stop()
+    shutil.rmtree(wd3, ignore_errors=True)
     # a confirmation that arrives WHILE a periodic save is being written (a large user dictionary makes the save slow): the
     # compound must reach user.dic with a later save and survive a restart
     ud2 = os.path.join(wd, "race-user")
